@@ -2,8 +2,9 @@
 
 Closure BFS (mode A) over the value/freeze/mark/function-replacement operations on every DAG shape
 up to a node bound plus hand-written shapes for the node kinds the enumeration does not produce;
-depth-bounded BFS (mode B) when structural edits are enabled; depth-bounded BFS over the Nexus
-registry API.  Oracle: DagRef (expression-DAG evaluator below) + call counters in user functions.
+depth-bounded BFS (mode B) when structural edits are enabled (replacement of children and nodes, with the
+replacement keeping its own children or taking over those of the replaced node, on shapes with and without
+dependency-only edges); depth-bounded BFS over the Nexus registry API from an empty and from a populated registry.  Oracle: DagRef (expression-DAG evaluator below) + call counters in user functions.
 """
 import collections
 import itertools
@@ -72,6 +73,28 @@ _OPS = {"add": operator.add, "sub": operator.sub, "mul": operator.mul}
 _EXC_TYPES = {"Exception": Exception, "ValueError": ValueError, "RuntimeError": RuntimeError}
 
 
+# node kinds that can stand in for each other in replace(other, other_children=False): the replacement takes over the children
+_FAMILY = {"F": "fn", "D": "fn", "X": "fn", "Z": "fn", "T": "T", "R": "R", "B": "B", "A": "A"}
+
+
+def _acyclic(ch):
+    state = {}
+
+    def visit(n):
+        if state.get(n) == 1:
+            return False
+        if state.get(n) == 2:
+            return True
+        state[n] = 1
+        for c in ch[n]:
+            if not visit(c):
+                return False
+        state[n] = 2
+        return True
+
+    return all(visit(n) for n in ch)
+
+
 class World(object):
     """Real nodes + DagRef.  shape: tuple of node specs, node i named 'n<i>':
     ('P', v0) | ('F', kids) | ('X', kids) | ('Z', deps) | ('A', kid) | ('T', kids) | ('R', kids) |
@@ -96,6 +119,8 @@ class World(object):
         self.fns = {}
         self.frozen, self.may = {}, set()
         self.nlit = 0
+        self.nnew = 0
+        self.took_over = set()  # nodes that took over dependency-only edges in a replacement (coverage facts only)
         for i, spec in enumerate(shape):
             self._make("n%d" % i, spec)
 
@@ -244,7 +269,7 @@ class World(object):
                 for v in self.vers:
                     if v != self.ver[n]:
                         ops.append(("func", n, v))
-            if k == "Z":
+            if k == "Z" and self.ch[n] and self.kind[self.ch[n][0]] == "P":
                 # external state changes paired with a notification through the depended-on parameter
                 for v in self.dom:
                     if v != self.cell[0]:
@@ -305,7 +330,31 @@ class World(object):
                 if any(p == m or p in self.desc(m) for p in parents):
                     continue
                 ops.append(("replace", n, m))
+        # replace node n by node m of the same family with other_children=False: m gives up its own children and takes over
+        # those of n (for functions: the argument list of n; edges of n that are dependencies only stay dependencies only);
+        # m is an existing node or a fresh, childless one
+        for n in names:
+            fam = _FAMILY.get(self.kind[n])
+            if fam is None:
+                continue
+            parents = [p for p in names if n in self.ch[p]]
+            if any(p in self.frozen for p in parents):
+                continue
+            if self.nnew < 1 and fam != "A":
+                ops.append(("replace_nc", n, ("new", self.kind[n])))
+            for m in names:
+                if m == n or m in self.frozen or _FAMILY.get(self.kind[m]) != fam:
+                    continue
+                if _acyclic(self._after_replace_nc(n, m, parents)):
+                    ops.append(("replace_nc", n, m))
         return ops
+
+    def _after_replace_nc(self, n, m, parents):
+        ch = {x: list(c) for x, c in self.ch.items()}
+        ch[m] = list(self.ch[n])
+        for p in parents:
+            ch[p] = [m if c == n else c for c in ch[p]]
+        return ch
 
     # -- transitions --------------------------------------------------------------------
     def apply(self, op, res):
@@ -368,6 +417,22 @@ class World(object):
                 self.ch[p] = [m if c == n else c for c in self.ch[p]]
                 self.par[p] = [m if c == n else c for c in self.par[p]]
                 self._touch(p)
+        elif k == "replace_nc":
+            _, n, m = op
+            m = self._resolve(m)
+            parents = [p for p in self.kind if n in self.ch[p]]
+            real[n].replace(real[m], other_children=False)
+            if self.ch[n] != self.par[n]:
+                self.took_over.add(m)
+            if res is not None:
+                res.facts["replace_nc:%s:%s" % ("fresh" if m != op[2] else "existing", "dep-only" if self.ch[n] != self.par[n] else "args")] += 1
+            self.ch[m] = list(self.ch[n])
+            self.par[m] = list(self.par[n])
+            for p in parents:
+                self.ch[p] = [m if c == n else c for c in self.ch[p]]
+                self.par[p] = [m if c == n else c for c in self.par[p]]
+                self._touch(p)
+            self._touch(m)
         elif k == "addpar":
             _, n, m = op
             real[n].add_parameter(real[m])
@@ -390,6 +455,27 @@ class World(object):
             self.kind[n] = "P"
             self.real[n] = self.nx.Parameter(m[1], name=n)
             self.pv[n], self.ch[n], self.par[n] = m[1], [], []
+            return n
+        if isinstance(m, tuple) and m[0] == "new":
+            # a fresh node without children of the given kind
+            nx, k = self.nx, m[1]
+            n = "G%d" % self.nnew
+            self.nnew += 1
+            self.kind[n], self.ch[n], self.par[n] = k, [], []
+            if k in ("F", "X", "Z", "D"):
+                fn = Fn(n, 0, self.calls, kind=("F" if k == "D" else k), cell=self.cell)
+                self.fns[n], self.ver[n] = fn, 0
+                self.real[n] = nx.Function(fn, name=n)
+            elif k == "T":
+                self.real[n] = nx.Tuple([], name=n)
+            elif k == "R":
+                self.real[n] = nx.Array([], name=n, dtype=object)
+            elif k == "B":
+                self.exc[n] = "Exception"
+                self.real[n] = nx.Fallback([], name=n)
+            else:
+                raise ValueError(k)
+            self.may.add(n)
             return n
         return m
 
@@ -430,6 +516,8 @@ class World(object):
             # coverage facts
             st = self.real[n].stale
             res.facts["read:%s:%s" % (self.kind[n], "frozen" if n in self.frozen else "live")] += 1
+            if self.took_over and not self.took_over.isdisjoint({n} | self.desc(n)):
+                res.facts["read:took-over-dep-only:%s" % ("recomputed" if delta else "cached")] += 1
             if exp[0] == "exc":
                 # reads of nodes that cannot be evaluated: first / repeated without an operation in between /
                 # of a node above (below) one whose read has just failed
@@ -528,6 +616,11 @@ STRUCTURAL_SHAPES = collections.OrderedDict(
         ("s-diamond", (("P", 0), ("F", (0,)), ("F", (0,)), ("F", (1, 2)))),
         ("s-alias", (("P", 0), ("P", 0), ("A", 0), ("F", (2,)))),
         ("s-fallback", (("P", 0), ("P", 0), ("X", (0,)), ("B", (2, 1)), ("F", (3,)))),
+        # functions with dependency-only edges (an input that invalidates but is no argument) under every structural edit:
+        # below a function / next to a second such function / a function of external state
+        ("s-dep", (("P", 0), ("P", 0), ("D", (0,), (1,)), ("F", (2,)))),
+        ("s-dep-pair", (("P", 0), ("P", 0), ("D", (0,), (1,)), ("D", (1,), (0,)))),
+        ("s-dep-ext", (("P", 0), ("P", 0), ("Z", (0,)), ("F", (2, 1)))),
     ]
 )
 
@@ -612,6 +705,7 @@ def jobs(tier, seed):
                 specs.append(("rw", name, sh, dom, None, (0,)))
             specs.append(("bounded", name, sh, dom, 3 if top else 4, (0,)))
         specs.append(("nexus", "registry", None, None, 4, None))
+        specs.append(("nexus", "registry-full", None, None, 3, None))
     else:
         for order in ("asc", "desc"):
             for n in (2, 3):
@@ -633,6 +727,7 @@ def jobs(tier, seed):
             specs.append(("rw", name, sh, (0, 1), None if one_input else 6, (0,)))
             specs.append(("bounded", name, sh, (0, 1), 5, (0,)))
         specs.append(("nexus", "registry", None, None, 6, None))
+        specs.append(("nexus", "registry-full", None, None, 4, None))
     # de-duplicate identical specs (asc == desc when no node has two children)
     seen, out = set(), []
     for s in specs:
@@ -649,14 +744,18 @@ def bound(tier, seed):
         return (
             "closure (fixpoint): all topologically numbered DAGs with 2..3 nodes incl. function replacement, with 4 nodes and "
             "11 hand-written shapes without function replacement, values {0,1}; depth 4 with function replacement on the same "
-            "shapes; structural edits depth 3 on 6 shapes; Nexus registry API depth 4; nodes that cannot be evaluated: "
+            "shapes; structural edits (child/node replacement with own or taken-over children by existing and fresh nodes, element "
+            "assignment, added arguments/dependencies) depth 3 on 9 shapes, 3 of them with dependency-only edges; Nexus registry "
+            "API depth 4 from the empty registry and depth 3 from a populated one (incl. re-registration of functions that "
+            "have explicit dependencies); nodes that cannot be evaluated: "
             "5 failing sub-graphs (raising function; fallbacks without working alternative, 3 exception types) x 8 parents x "
             "3 tops = 120 shapes, all operations depth 4 (no top) / 3 (with top), set/read closure on the 32 one-input shapes "
             "without top; the read directly after a failed read is a state of its own"
         )
     return (
         "closure: all DAGs with 2..4 nodes (both child orders, values {0,1,2}) and 5 nodes (values {0,1}) + 11 special shapes; "
-        "depth 6 with function replacement; structural edits depth 4; Nexus registry API depth 5; 120 shapes with nodes that "
+        "depth 6 with function replacement; structural edits depth 4 on 9 shapes; Nexus registry API depth 6 (empty start) / 4 "
+        "(populated start); 120 shapes with nodes that "
         "cannot be evaluated: set/read closure (two-input sub-graphs depth 6), all operations depth 5"
     )
 
@@ -670,9 +769,9 @@ def make_factory(spec):
     if mode == "structural":
         return lambda: World(shape, dom=dom, structural=True, vers=vers)
     if mode == "nexus":
-        from checks.c04_registry import RegistryWorld
+        from checks.c04_registry import FULL, RegistryWorld
 
-        return lambda: RegistryWorld()
+        return lambda: RegistryWorld(prefix=FULL if name == "registry-full" else ())
     raise ValueError(mode)
 
 
@@ -749,7 +848,7 @@ class _Wrapped(object):
 def _signature(hist, obs, mode):
     spec = hist[0]
     ops = ";".join(",".join(str(x) for x in o) for o in hist[1:])
-    return "%s:%s|%s|%s|%s" % (spec[0], _shape_str(spec[2]), ops, obs, mode)
+    return "%s:%s|%s|%s|%s" % (spec[0], _shape_str(spec[2]) if spec[2] is not None else spec[1], ops, obs, mode)
 
 
 def _shape_str(shape):
@@ -824,6 +923,13 @@ def vacuity_guards(tot, tier):
     yield "failing reads of function / fallback / alias / tuple / array nodes repeated without an operation in between", all(
         f.get("read-fails-again:%s" % k, 0) > 0 for k in "XFBATR"
     )
+    yield "functions with dependency-only edges replaced by a fresh and by an existing function that takes over their children", all(
+        f.get("replace_nc:%s:dep-only" % k, 0) > 0 for k in ("fresh", "existing")
+    )
+    yield "nodes that took over dependency-only edges (and nodes above them) read, recomputing and from the cache", all(
+        f.get("read:took-over-dep-only:%s" % k, 0) > 0 for k in ("recomputed", "cached")
+    )
+    yield "functions registered again under their name in a populated registry", f.get("registry:function-replaced", 0) > 0
     yield "nodes above a fallback whose read has just failed are read (failing and falling through)", all(
         f.get("read-above-failed:%s>B:%s" % (k, o), 0) > 0 for k, o in (("B", "val"), ("B", "exc"), ("T", "val"), ("T", "exc"), ("F", "exc"))
     )
